@@ -113,7 +113,7 @@ CLAIMED = {
             'rule over the complex exp/trig family (real-axis delegation)',
             'Clauses: (B-R6) no computed value is re-rounded by passing its fields to normalize()/'
             'normalize1(), which turn inf/nan into 0 (two genuine defects repaired: acos/asin of complex '
-            'nan/inf, nthroot); (B-R7) inside the libmp kernels no inexact intermediate rounded at the '
+            'nan/inf, nthroot); (B-R9) inside the libmp kernels no inexact intermediate rounded at the '
             'target precision itself feeds a computation that runs with guard bits - the contradiction '
             'that makes exact cases (root(a**n, n), ...) miss their exact value; every comparable '
             '(intermediate, consumer) pair is examined; (B-R8) each of the ten complex exp/trig kernels '
@@ -123,7 +123,7 @@ CLAIMED = {
             'and special points as values is not decided.',
             'Seeded change C13-3 (half-integer exponents no longer routed through sqrt in mpf_pow) is a '
             'choice of algorithm and is not detected.',
-            'DESIGN.md section 2, Engine B (B-R6, B-R7, B-R8)'),
+            'DESIGN.md section 2, Engine B (B-R6, B-R8, B-R9)'),
     'C10': ('B-rounding-flow',
             'static analysis: flow-sensitive abstract interpretation of the kernels (bounded '
             'disjunctive worlds, affine precision expressions, inter-procedural summaries), '
